@@ -109,12 +109,19 @@ func (vfs *BasePathFS) ToBasePath(path string) string {
 		path = vfs.Join(curDir, path)
 	}
 
+	// a trailing separator is part of the meaning of a path (it can then only lead to a directory).
+	trailingSep := len(path) > 1 && vfs.IsPathSeparator(path[len(path)-1])
+
 	path = vfs.Clean(path)
 	vl := avfs.VolumeNameLen(vfs, path)
 	sep := string(vfs.PathSeparator())
 
 	if path[vl:] == sep {
 		return vfs.basePath
+	}
+
+	if trailingSep {
+		path += sep
 	}
 
 	return strings.TrimSuffix(vfs.basePath, sep) + path[vl:]
